@@ -838,7 +838,10 @@ func (s *Server) doModify(cid string, ops []*spb.AFTOperation, resCh chan *spb.M
 		res, err := modifyEntry(s.masterRIB, ni, o, cs.params.FIBAck, elec)
 		switch {
 		case err != nil:
+			// The error is fatal to the RPC, so the remaining operations in this
+			// request must not be applied.
 			errCh <- err
+			return
 		default:
 			resCh <- res
 		}
